@@ -30,4 +30,6 @@ func init() {
 	register("C12", "exploration", C12)
 	register("C13", "exploration", C13)
 	register("C10", "exploration", C10)
+	register("C20", "fault_enumeration", C20)
+	register("C19", "exploration", C19)
 }
